@@ -1,5 +1,5 @@
 //@include prelude/header.rs
-use rustpython_parser::ast::{Expr, Stmt, Keyword, Identifier, Constant};
+use rustpython_parser::ast::{Expr, Stmt, Keyword, Identifier, Constant, ExceptHandler};
 use rustpython_parser::text_size::TextRange;
 verus! {
 pub mod pre {
@@ -267,12 +267,283 @@ broadcast use axiom_string_to_string;
 /*@ extract src/fixtures/decorators.rs extract_usefixtures_from_expr
 @tags C03 C12
 @ret r
-@rename flat_map vp_flat_map
+@replace 1 `flat_map(extract_usefixtures_from_expr)` => `vp_flat_map(|x: &Expr| -> (o: Vec<(String, TextRange)>) requires decreases_to!(expr => x) ensures ufe_post(x, o@) { extract_usefixtures_from_expr(x) })`
+@replace 2 `flat_map(extract_usefixtures_from_expr)` => `vp_flat_map(|x: &Expr| -> (o: Vec<(String, TextRange)>) requires decreases_to!(expr => x) ensures ufe_post(x, o@) { extract_usefixtures_from_expr(x) })`
 @sig
     ensures ufe_post(expr, r@),
     decreases expr,
 @*/
 } // mod decorators
+
+
+// ---- yield search: the two hand-written searches as functions of the AST -----------------------------------
+/// 1-based line of a byte offset (src/fixtures/analyzer.rs get_line_from_offset: binary search in the line index)
+pub uninterp spec fn line_of_offset(offset: usize, line_index: Seq<usize>) -> usize;
+pub open spec fn opt_or<T>(a: Option<T>, b: Option<T>) -> Option<T> { if a is Some { a } else { b } }
+
+/// find_yield_line: the line of the FIRST `yield` / `yield from` expression STATEMENT met when the blocks of
+/// if / for / while / with / try (body, handlers, else, finally) and their async forms are searched in source order
+pub open spec fn fy_expr(e: Expr, li: Seq<usize>) -> Option<usize> {
+    match e {
+        Expr::Yield(y) => Some(line_of_offset(tsv(tr_start(y.range)), li)),
+        Expr::YieldFrom(y) => Some(line_of_offset(tsv(tr_start(y.range)), li)),
+        _ => None,
+    }
+}
+pub open spec fn fy_from(b: Seq<Stmt>, k: int, li: Seq<usize>) -> Option<usize>
+    decreases b, b.len() - k
+{
+    if k < 0 || k >= b.len() { None } else { opt_or(fy_stmt(b[k], li), fy_from(b, k + 1, li)) }
+}
+pub open spec fn fy_stmt(s: Stmt, li: Seq<usize>) -> Option<usize>
+    decreases s, 0int
+{
+    match s {
+        Stmt::Expr(x) => fy_expr(*x.value, li),
+        Stmt::If(x) => opt_or(fy_from(x.body@, 0, li), fy_from(x.orelse@, 0, li)),
+        Stmt::With(x) => fy_from(x.body@, 0, li),
+        Stmt::AsyncWith(x) => fy_from(x.body@, 0, li),
+        Stmt::Try(x) => opt_or(fy_from(x.body@, 0, li), opt_or(fy_handlers(x.handlers@, 0, li),
+                        opt_or(fy_from(x.orelse@, 0, li), fy_from(x.finalbody@, 0, li)))),
+        Stmt::For(x) => opt_or(fy_from(x.body@, 0, li), fy_from(x.orelse@, 0, li)),
+        Stmt::AsyncFor(x) => opt_or(fy_from(x.body@, 0, li), fy_from(x.orelse@, 0, li)),
+        Stmt::While(x) => opt_or(fy_from(x.body@, 0, li), fy_from(x.orelse@, 0, li)),
+        _ => None,
+    }
+}
+pub open spec fn fy_handlers(hs: Seq<ExceptHandler>, k: int, li: Seq<usize>) -> Option<usize>
+    decreases hs, hs.len() - k
+{
+    if k < 0 || k >= hs.len() { None } else {
+        match hs[k] { ExceptHandler::ExceptHandler(h) => opt_or(fy_from(h.body@, 0, li), fy_handlers(hs, k + 1, li)) }
+    }
+}
+
+/// contains_yield ("is this fixture a generator": decides whether the return annotation is unwrapped)
+pub open spec fn cy_from(b: Seq<Stmt>, k: int) -> bool
+    decreases b, b.len() - k
+{
+    if k < 0 || k >= b.len() { false } else { cy_stmt(b[k]) || cy_from(b, k + 1) }
+}
+pub open spec fn cy_stmt(s: Stmt) -> bool
+    decreases s, 0int
+{
+    match s {
+        Stmt::Expr(x) => (*x.value) is Yield || (*x.value) is YieldFrom,
+        Stmt::If(x) => cy_from(x.body@, 0) || cy_from(x.orelse@, 0),
+        Stmt::For(x) => cy_from(x.body@, 0) || cy_from(x.orelse@, 0),
+        Stmt::While(x) => cy_from(x.body@, 0) || cy_from(x.orelse@, 0),
+        Stmt::AsyncFor(x) => cy_from(x.body@, 0) || cy_from(x.orelse@, 0),
+        Stmt::With(x) => cy_from(x.body@, 0),
+        Stmt::AsyncWith(x) => cy_from(x.body@, 0),
+        Stmt::Try(x) => cy_from(x.body@, 0) || cy_from(x.orelse@, 0) || cy_from(x.finalbody@, 0) || cy_handlers(x.handlers@, 0),
+        _ => false,
+    }
+}
+pub open spec fn cy_handlers(hs: Seq<ExceptHandler>, k: int) -> bool
+    decreases hs, hs.len() - k
+{
+    if k < 0 || k >= hs.len() { false } else {
+        match hs[k] { ExceptHandler::ExceptHandler(h) => cy_from(h.body@, 0) || cy_handlers(hs, k + 1) }
+    }
+}
+
+// no field of the database is read by these methods (a field access would not compile: UNDECIDED)
+pub struct FixtureDatabase {}
+
+impl FixtureDatabase {
+    /// callee stub: binary search over the line index, result left abstract
+    #[verifier::external_body]
+    pub(crate) fn get_line_from_offset(&self, offset: usize, line_index: &[usize]) -> (r: usize)
+        ensures r == line_of_offset(offset, line_index@)
+    { unimplemented!() }
+
+/*@ extract src/fixtures/analyzer.rs find_yield_in_expr
+@tags C03
+@ret r
+@sig
+    ensures r == fy_expr(*expr, line_index@),
+@*/
+
+/*@ extract src/fixtures/analyzer.rs find_yield_in_stmt
+@tags C03 C12
+@ret r
+@sig
+    ensures r == fy_stmt(*stmt, line_index@),
+    decreases stmt,
+@loopvar 1 it1
+@loop 1
+    invariant it1.seq() == if_stmt.body@.as_ref(),
+        fy_from(if_stmt.body@, 0, line_index@) == fy_from(if_stmt.body@, it1.index@ as int, line_index@),
+        *stmt == Stmt::If(*if_stmt),
+@loopstart 1
+    proof { let i = it1.index@ as int; assert(*s == if_stmt.body@[i]);
+        assert(fy_from(if_stmt.body@, i, line_index@) == opt_or(fy_stmt(*s, line_index@), fy_from(if_stmt.body@, i + 1, line_index@))); }
+@loopvar 2 it2
+@loop 2
+    invariant it2.seq() == if_stmt.orelse@.as_ref(),
+        fy_from(if_stmt.orelse@, 0, line_index@) == fy_from(if_stmt.orelse@, it2.index@ as int, line_index@),
+        *stmt == Stmt::If(*if_stmt),
+        fy_from(if_stmt.body@, 0, line_index@) is None,
+@loopstart 2
+    proof { let i = it2.index@ as int; assert(*s == if_stmt.orelse@[i]);
+        assert(fy_from(if_stmt.orelse@, i, line_index@) == opt_or(fy_stmt(*s, line_index@), fy_from(if_stmt.orelse@, i + 1, line_index@))); }
+@loopvar 3 it3
+@loop 3
+    invariant it3.seq() == with_stmt.body@.as_ref(),
+        fy_from(with_stmt.body@, 0, line_index@) == fy_from(with_stmt.body@, it3.index@ as int, line_index@),
+        *stmt == Stmt::With(*with_stmt),
+@loopstart 3
+    proof { let i = it3.index@ as int; assert(*s == with_stmt.body@[i]);
+        assert(fy_from(with_stmt.body@, i, line_index@) == opt_or(fy_stmt(*s, line_index@), fy_from(with_stmt.body@, i + 1, line_index@))); }
+@loopvar 4 it4
+@loop 4
+    invariant it4.seq() == with_stmt.body@.as_ref(),
+        fy_from(with_stmt.body@, 0, line_index@) == fy_from(with_stmt.body@, it4.index@ as int, line_index@),
+        *stmt == Stmt::AsyncWith(*with_stmt),
+@loopstart 4
+    proof { let i = it4.index@ as int; assert(*s == with_stmt.body@[i]);
+        assert(fy_from(with_stmt.body@, i, line_index@) == opt_or(fy_stmt(*s, line_index@), fy_from(with_stmt.body@, i + 1, line_index@))); }
+@loopvar 5 it5
+@loop 5
+    invariant it5.seq() == try_stmt.body@.as_ref(),
+        fy_from(try_stmt.body@, 0, line_index@) == fy_from(try_stmt.body@, it5.index@ as int, line_index@),
+        *stmt == Stmt::Try(*try_stmt),
+@loopstart 5
+    proof { let i = it5.index@ as int; assert(*s == try_stmt.body@[i]);
+        assert(fy_from(try_stmt.body@, i, line_index@) == opt_or(fy_stmt(*s, line_index@), fy_from(try_stmt.body@, i + 1, line_index@))); }
+@loopvar 6 it6
+@loop 6
+    invariant it6.seq() == try_stmt.handlers@.as_ref(),
+        fy_handlers(try_stmt.handlers@, 0, line_index@) == fy_handlers(try_stmt.handlers@, it6.index@ as int, line_index@),
+        *stmt == Stmt::Try(*try_stmt), fy_from(try_stmt.body@, 0, line_index@) is None,
+@loopstart 6
+    let ghost hi = it6.index@ as int;
+    proof { assert(*handler == try_stmt.handlers@[hi]); }
+@loopvar 7 it7
+@loop 7
+    invariant it7.seq() == h.body@.as_ref(),
+        fy_from(h.body@, 0, line_index@) == fy_from(h.body@, it7.index@ as int, line_index@),
+        *stmt == Stmt::Try(*try_stmt),
+        fy_from(try_stmt.body@, 0, line_index@) is None,
+        0 <= hi < try_stmt.handlers@.len(),
+        try_stmt.handlers@[hi] == ExceptHandler::ExceptHandler(*h),
+        fy_handlers(try_stmt.handlers@, 0, line_index@) == fy_handlers(try_stmt.handlers@, hi, line_index@),
+@loopstart 7
+    proof { let i = it7.index@ as int; assert(*s == h.body@[i]);
+        assert(fy_from(h.body@, i, line_index@) == opt_or(fy_stmt(*s, line_index@), fy_from(h.body@, i + 1, line_index@))); }
+@loopvar 8 it8
+@loop 8
+    invariant it8.seq() == try_stmt.orelse@.as_ref(),
+        fy_from(try_stmt.orelse@, 0, line_index@) == fy_from(try_stmt.orelse@, it8.index@ as int, line_index@),
+        *stmt == Stmt::Try(*try_stmt),
+        fy_from(try_stmt.body@, 0, line_index@) is None,
+        fy_handlers(try_stmt.handlers@, 0, line_index@) is None,
+@loopstart 8
+    proof { let i = it8.index@ as int; assert(*s == try_stmt.orelse@[i]);
+        assert(fy_from(try_stmt.orelse@, i, line_index@) == opt_or(fy_stmt(*s, line_index@), fy_from(try_stmt.orelse@, i + 1, line_index@))); }
+@loopvar 9 it9
+@loop 9
+    invariant it9.seq() == try_stmt.finalbody@.as_ref(),
+        fy_from(try_stmt.finalbody@, 0, line_index@) == fy_from(try_stmt.finalbody@, it9.index@ as int, line_index@),
+        *stmt == Stmt::Try(*try_stmt),
+        fy_from(try_stmt.body@, 0, line_index@) is None,
+        fy_from(try_stmt.orelse@, 0, line_index@) is None,
+        fy_handlers(try_stmt.handlers@, 0, line_index@) is None,
+@loopstart 9
+    proof { let i = it9.index@ as int; assert(*s == try_stmt.finalbody@[i]);
+        assert(fy_from(try_stmt.finalbody@, i, line_index@) == opt_or(fy_stmt(*s, line_index@), fy_from(try_stmt.finalbody@, i + 1, line_index@))); }
+@loopvar 10 it10
+@loop 10
+    invariant it10.seq() == for_stmt.body@.as_ref(),
+        fy_from(for_stmt.body@, 0, line_index@) == fy_from(for_stmt.body@, it10.index@ as int, line_index@),
+        *stmt == Stmt::For(*for_stmt),
+@loopstart 10
+    proof { let i = it10.index@ as int; assert(*s == for_stmt.body@[i]);
+        assert(fy_from(for_stmt.body@, i, line_index@) == opt_or(fy_stmt(*s, line_index@), fy_from(for_stmt.body@, i + 1, line_index@))); }
+@loopvar 11 it11
+@loop 11
+    invariant it11.seq() == for_stmt.orelse@.as_ref(),
+        fy_from(for_stmt.orelse@, 0, line_index@) == fy_from(for_stmt.orelse@, it11.index@ as int, line_index@),
+        *stmt == Stmt::For(*for_stmt),
+        fy_from(for_stmt.body@, 0, line_index@) is None,
+@loopstart 11
+    proof { let i = it11.index@ as int; assert(*s == for_stmt.orelse@[i]);
+        assert(fy_from(for_stmt.orelse@, i, line_index@) == opt_or(fy_stmt(*s, line_index@), fy_from(for_stmt.orelse@, i + 1, line_index@))); }
+@loopvar 12 it12
+@loop 12
+    invariant it12.seq() == for_stmt.body@.as_ref(),
+        fy_from(for_stmt.body@, 0, line_index@) == fy_from(for_stmt.body@, it12.index@ as int, line_index@),
+        *stmt == Stmt::AsyncFor(*for_stmt),
+@loopstart 12
+    proof { let i = it12.index@ as int; assert(*s == for_stmt.body@[i]);
+        assert(fy_from(for_stmt.body@, i, line_index@) == opt_or(fy_stmt(*s, line_index@), fy_from(for_stmt.body@, i + 1, line_index@))); }
+@loopvar 13 it13
+@loop 13
+    invariant it13.seq() == for_stmt.orelse@.as_ref(),
+        fy_from(for_stmt.orelse@, 0, line_index@) == fy_from(for_stmt.orelse@, it13.index@ as int, line_index@),
+        *stmt == Stmt::AsyncFor(*for_stmt),
+        fy_from(for_stmt.body@, 0, line_index@) is None,
+@loopstart 13
+    proof { let i = it13.index@ as int; assert(*s == for_stmt.orelse@[i]);
+        assert(fy_from(for_stmt.orelse@, i, line_index@) == opt_or(fy_stmt(*s, line_index@), fy_from(for_stmt.orelse@, i + 1, line_index@))); }
+@loopvar 14 it14
+@loop 14
+    invariant it14.seq() == while_stmt.body@.as_ref(),
+        fy_from(while_stmt.body@, 0, line_index@) == fy_from(while_stmt.body@, it14.index@ as int, line_index@),
+        *stmt == Stmt::While(*while_stmt),
+@loopstart 14
+    proof { let i = it14.index@ as int; assert(*s == while_stmt.body@[i]);
+        assert(fy_from(while_stmt.body@, i, line_index@) == opt_or(fy_stmt(*s, line_index@), fy_from(while_stmt.body@, i + 1, line_index@))); }
+@loopvar 15 it15
+@loop 15
+    invariant it15.seq() == while_stmt.orelse@.as_ref(),
+        fy_from(while_stmt.orelse@, 0, line_index@) == fy_from(while_stmt.orelse@, it15.index@ as int, line_index@),
+        *stmt == Stmt::While(*while_stmt),
+        fy_from(while_stmt.body@, 0, line_index@) is None,
+@loopstart 15
+    proof { let i = it15.index@ as int; assert(*s == while_stmt.orelse@[i]);
+        assert(fy_from(while_stmt.orelse@, i, line_index@) == opt_or(fy_stmt(*s, line_index@), fy_from(while_stmt.orelse@, i + 1, line_index@))); }
+@*/
+
+/*@ extract src/fixtures/analyzer.rs find_yield_line
+@tags C03 C12
+@ret r
+@sig
+    ensures r == fy_from(body@, 0, line_index@),
+@loopvar 1 it
+@loop 1
+    invariant it.seq() == body@.as_ref(), fy_from(body@, 0, line_index@) == fy_from(body@, it.index@ as int, line_index@),
+@loopstart 1
+    proof { let i = it.index@ as int; assert(*stmt == body@[i]);
+        assert(fy_from(body@, i, line_index@) == opt_or(fy_stmt(*stmt, line_index@), fy_from(body@, i + 1, line_index@))); }
+@*/
+
+/*@ extract src/fixtures/docstring.rs contains_yield
+@tags C03 C12
+@ret r
+@sig
+    ensures r == cy_from(body@, 0),
+    decreases body@,
+@loopvar 1 it
+@loop 1
+    invariant it.seq() == body@.as_ref(), cy_from(body@, 0) == cy_from(body@, it.index@ as int),
+@loopstart 1
+    let ghost oi = it.index@ as int;
+    proof { assert(*stmt == body@[oi]); assert(cy_from(body@, oi) == (cy_stmt(*stmt) || cy_from(body@, oi + 1))); }
+@loopvar 2 it2
+@loop 2
+    invariant it2.seq() == try_stmt.handlers@.as_ref(),
+        cy_handlers(try_stmt.handlers@, 0) == cy_handlers(try_stmt.handlers@, it2.index@ as int),
+        *stmt == Stmt::Try(*try_stmt), 0 <= oi < body@.len(), *stmt == body@[oi],
+        cy_from(body@, 0) == cy_from(body@, oi),
+@loopstart 2
+    proof { let i = it2.index@ as int; assert(*handler == try_stmt.handlers@[i]); }
+@after h 1
+    proof { let i = it2.index@ as int; assert(try_stmt.handlers@[i] == ExceptHandler::ExceptHandler(*h));
+        assert(cy_handlers(try_stmt.handlers@, i) == (cy_from(h.body@, 0) || cy_handlers(try_stmt.handlers@, i + 1))); }
+@*/
+}
 
 } // verus!
 fn main() {}
